@@ -288,7 +288,9 @@ class Impl:
             c = o[1] if k == "SCHED" else o[2]
             cb = self.make_callback(jid, c, prog)
             if k == "SCHED":
-                job = getattr(sch, TYPE_NAMES[c["type"]])(self.timing_arg(c), cb, **self.job_kwargs(c, jid, prog))
+                jkw = self.job_kwargs(c, jid, prog)
+                job = getattr(sch, TYPE_NAMES[c["type"]])(self.timing_arg(c), cb, **jkw)
+                caller_kwargs, caller_tags = jkw.get("kwargs"), jkw.get("tags")
             else:
                 ot = o[1]
                 if ot[0] == "D":
@@ -299,10 +301,26 @@ class Impl:
                     t = mk_time(ot[1])
                 else:
                     t = self.m["trigger"].weekday(ot[1], mk_time(ot[2]))
-                tags = self.once_tags(c)
+                caller_tags = self.once_tags(c)
+                caller_kwargs = {"k%d" % kk: v for kk, v in c["kwargs"]} if c["kwargs"] else None
                 job = sch.once(t, cb, args=tuple(c["args"]) if c["args"] else None,
-                               kwargs={"k%d" % kk: v for kk, v in c["kwargs"]} if c["kwargs"] else None,
-                               tags=tags, weight=self.weight(c))
+                               kwargs=caller_kwargs, tags=caller_tags, weight=self.weight(c))
+            # C19/C11: the scheduler must be insulated from later mutation of the caller's objects
+            # and of the set handed out by the tags property
+            if isinstance(caller_kwargs, dict):
+                caller_kwargs["k99"] = 99
+                for key in list(caller_kwargs)[:1]:
+                    caller_kwargs.pop(key)
+            if isinstance(caller_tags, set):
+                caller_tags.add("t99")
+                for tg in sorted(caller_tags)[:1]:
+                    caller_tags.discard(tg)
+            elif isinstance(caller_tags, list):
+                caller_tags.append("t99")
+                del caller_tags[:1]
+            handed = job.tags
+            handed.add("t98")
+            handed.clear()
             self.jobs[jid] = job
             return ("job", jid)
         if k == "DEL":
